@@ -81,19 +81,33 @@ func init() {
 		"math.Float64frombits": extFloat64frombits,
 
 		// formatting: opaque
-		"fmt.Sprintf":           extSprintf,
-		"fmt.Errorf":            extErrorf,
-		"fmt.Sprint":            extSprint,
-		"fmt.Sprintln":          extSprint,
-		"fmt.Fprintf":           extFprintf,
-		"fmt.Fprint":            extFprint,
-		"fmt.Fprintln":          extFprint,
-		"fmt.Printf":            extPrintNothing,
-		"fmt.Println":           extPrintNothing,
-		"fmt.Print":             extPrintNothing,
-		"log.Printf":            extNop,
-		"log.Println":           extNop,
-		"log.Print":             extNop,
+		"fmt.Sprintf":  extSprintf,
+		"fmt.Errorf":   extErrorf,
+		"fmt.Sprint":   extSprint,
+		"fmt.Sprintln": extSprint,
+		"fmt.Fprintf":  extFprintf,
+		"fmt.Fprint":   extFprint,
+		"fmt.Fprintln": extFprint,
+		"fmt.Printf":   extPrintNothing,
+		"fmt.Println":  extPrintNothing,
+		"fmt.Print":    extPrintNothing,
+		"log.Printf":   extNop,
+		"log.Println":  extNop,
+		"log.Print":    extNop,
+		"log.New": func(fr *frame, args []value) value {
+			pkg := fr.i.prog.ImportedPackage("log")
+			cell := zero(pkg.Type("Logger").Object().Type())
+			return &cell
+		},
+		"log.SetFlags":  extNop,
+		"log.SetPrefix": extNop,
+		"log.SetOutput": extNop,
+		"log.Panicf": func(fr *frame, args []value) value {
+			panic(targetPanic{iface{t: types.Typ[types.String], v: fr.i.formatOpaque(args[0], args[1])}})
+		},
+		"log.Fatalf": func(fr *frame, args []value) value {
+			panic(targetPanic{iface{t: types.Typ[types.String], v: "log.Fatalf: " + fr.i.formatOpaque(args[0], args[1])}})
+		},
 		"log.Output":            extNilError,
 		"(*log.Logger).Printf":  extNop,
 		"(*log.Logger).Println": extNop,
@@ -189,6 +203,14 @@ func init() {
 			return p
 		},
 		"encoding/json.freeScanner": extNop,
+
+		// clock: a fixed instant (2024-01-01T00:00:00Z); no property depends on time
+		"time.now": func(fr *frame, args []value) value {
+			return tuple{int64(1704067200), int32(0), int64(1704067200000000000)}
+		},
+		"time.Now":         func(fr *frame, args []value) value { return structure{uint64(0), int64(63839664000), (*value)(nil)} },
+		"time.runtimeNano": func(fr *frame, args []value) value { return int64(1704067200000000000) },
+		"runtime.nanotime": func(fr *frame, args []value) value { return int64(1704067200000000000) },
 
 		// GODEBUG settings: always the default
 		"(*internal/godebug.Setting).Value":         func(fr *frame, args []value) value { return "" },
